@@ -96,15 +96,15 @@ func (fr *Frame) loopCut(b *ssa.BasicBlock, ord int, ci *cfgInfo) {
 	fr.checkInvariants(li, "inv-entry", b)
 	// havoc what the loop body may change
 	eff := fr.blockEffects(ci.body[b], 0)
+	if eff.alloc || eff.all {
+		fr.bumpTop()
+	}
 	if eff.all {
 		r.Heap.HavocAll(fr.st)
 	} else {
 		for _, n := range sortedBoolKeys(eff.comps) {
 			r.Heap.Havoc(fr.st, n)
 		}
-	}
-	if eff.alloc || eff.all {
-		fr.bumpTop()
 	}
 	for a := range eff.regs {
 		if _, live := fr.st.regs[a]; live {
@@ -359,6 +359,14 @@ func (fr *Frame) callEffects(cc *ssa.CallCommon, eff *effects, depth int) {
 		if !c.ModAll && !c.HavocExt && len(c.Modifies) == 0 && len(fn.FreeVars) == 0 {
 			return
 		}
+		if !c.ModAll && !c.HavocExt && len(fn.FreeVars) == 0 {
+			if comps, ok := fr.contractEffectComps(c, fn); ok {
+				for _, k := range comps {
+					eff.comps[k] = true
+				}
+				return
+			}
+		}
 		eff.all = true
 		return
 	}
@@ -387,4 +395,133 @@ func (fr *Frame) callEffects(cc *ssa.CallCommon, eff *effects, depth int) {
 		return
 	}
 	eff.all = true
+}
+
+// contractEffectComps over-approximates a contract's modifies clause by whole heap components, typing the targets
+// statically from the callee's parameter types.
+func (fr *Frame) contractEffectComps(c *Contract, fn *ssa.Function) (comps []string, ok bool) {
+	vars := map[string]types.Type{}
+	ps := fn.Params
+	if o := fn.Origin(); o != nil && o != fn && len(o.Params) == len(fn.Params) {
+		ps = o.Params
+	}
+	for i, p := range ps {
+		vars[p.Name()] = fn.Params[i].Type()
+		vars[fmt.Sprintf("$%d", i)] = fn.Params[i].Type()
+	}
+	for _, m := range c.Modifies {
+		cs, ok := fr.targetComps(m, vars, c.PkgPath)
+		if !ok {
+			return nil, false
+		}
+		comps = append(comps, cs...)
+	}
+	return comps, true
+}
+
+func (fr *Frame) staticType(e Expr, vars map[string]types.Type) types.Type {
+	switch e := e.(type) {
+	case EIdent:
+		return vars[e.Name]
+	case ESel:
+		xt := fr.staticType(e.X, vars)
+		if xt == nil {
+			return nil
+		}
+		obj, _, _ := types.LookupFieldOrMethod(xt, true, nil, e.Sel)
+		if obj == nil {
+			if n := namedOf(xt); n != nil {
+				obj, _, _ = types.LookupFieldOrMethod(xt, true, n.Obj().Pkg(), e.Sel)
+			}
+		}
+		if v, ok := obj.(*types.Var); ok {
+			return v.Type()
+		}
+	case EIndex:
+		xt := fr.staticType(e.X, vars)
+		if xt == nil {
+			return nil
+		}
+		switch u := types.Unalias(xt).Underlying().(type) {
+		case *types.Map:
+			return u.Elem()
+		case *types.Slice:
+			return u.Elem()
+		}
+	}
+	return nil
+}
+
+func (fr *Frame) targetComps(e Expr, vars map[string]types.Type, pkgPath string) ([]string, bool) {
+	switch e := e.(type) {
+	case ESel:
+		xt := fr.staticType(e.X, vars)
+		if xt == nil {
+			return nil, false
+		}
+		p, ok := types.Unalias(xt).Underlying().(*types.Pointer)
+		if !ok {
+			return nil, false
+		}
+		_, path, _ := types.LookupFieldOrMethod(xt, true, nil, e.Sel)
+		if path == nil {
+			if n := namedOf(xt); n != nil {
+				_, path, _ = types.LookupFieldOrMethod(xt, true, n.Obj().Pkg(), e.Sel)
+			}
+		}
+		if path == nil {
+			return nil, false
+		}
+		st := types.Unalias(p.Elem()).Underlying().(*types.Struct)
+		return []string{fieldComp(p.Elem(), st.Field(path[0]).Name())}, true
+	case ECall:
+		switch e.Fun {
+		case "elems":
+			xt := fr.staticType(e.Args[0], vars)
+			if st, ok := types.Unalias(xt).Underlying().(*types.Slice); xt != nil && ok {
+				return []string{elemsComp(st.Elem())}, true
+			}
+		case "mapOf":
+			xt := fr.staticType(e.Args[0], vars)
+			if xt != nil {
+				if mt, ok := types.Unalias(xt).Underlying().(*types.Map); ok {
+					return []string{mapDomComp(mt), mapValComp(mt), mapLenComp}, true
+				}
+			}
+		case "all":
+			xt := fr.staticType(e.Args[0], vars)
+			if xt != nil {
+				if p, ok := types.Unalias(xt).Underlying().(*types.Pointer); ok {
+					if st, ok := types.Unalias(p.Elem()).Underlying().(*types.Struct); ok {
+						var out []string
+						for i := 0; i < st.NumFields(); i++ {
+							out = append(out, fieldComp(p.Elem(), st.Field(i).Name()))
+						}
+						return out, true
+					}
+				}
+			}
+		case "fields":
+			parts := strings.Split(typeExprString(e.Args[0]), ".")
+			ty, err := fr.R.Eng.ResolveType(strings.Join(parts[:len(parts)-1], "."), pkgPath)
+			if err == nil {
+				return []string{fieldComp(ty, parts[len(parts)-1])}, true
+			}
+		case "allElems":
+			ty, err := fr.R.Eng.ResolveType(typeExprString(e.Args[0]), pkgPath)
+			if err == nil {
+				return []string{elemsComp(ty)}, true
+			}
+		case "chanState":
+			return []string{chanClosedComp}, true
+		case "reach":
+			xt := fr.staticType(e.Args[0], vars)
+			if xt != nil {
+				if _, isIface := types.Unalias(xt).Underlying().(*types.Interface); !isIface {
+					return fr.reachComps(xt), true
+				}
+			}
+		}
+	}
+	return nil, false
 }
